@@ -318,7 +318,12 @@ struct Comment;
 impl Lexer for Comment {
     fn lex(input: Span) -> IResult {
         let start = input.location_offset();
-        let (input, comment) = delimited(tag("//"), take_till(|c| c == '\n'), tag("\n"))(input)?;
+        let (input, comment) = delimited(
+            tag("//"),
+            take_till(|c| c == '\n'),
+            // a comment on the last line ends with the text
+            alt((tag("\n"), eof)),
+        )(input)?;
         let end = input.location_offset();
         Ok((
             input,
